@@ -16,6 +16,12 @@ pub fn menu4(l: L) -> Vec<(String, usize)> {
     vec![(s.c.to_string(), 9), (s.v.to_string(), 9), (s.c.to_string(), 5), (format!("{} {}", s.v, s.c), 9)]
 }
 
+/// history menu B: equal ratings, raw order and normalised order disagree, plus a strictly-in-between rating
+pub fn menu_case(l: L) -> Vec<(String, usize)> {
+    let m = menu10(l);
+    vec![m[0].clone(), m[1].clone(), (m[4].0.clone(), 7), (m[8].0.clone(), 9)]
+}
+
 pub fn menu10(l: L) -> Vec<(String, usize)> {
     // equal ratings; raw order and normalised order disagree ('B' < 'a' raw, 'b' > 'a' normalised; an accented
     // letter of the language sorts after 'f' raw and before it normalised)
@@ -215,16 +221,16 @@ impl Prop for C12 {
     }
     fn doms(&self) -> Vec<Dom> {
         let mut d: Vec<Dom> = self.sets.iter().map(|(l, name, menu, n, _)| Dom::new(format!("{}/{}", l.tag(), name), seqs_len(menu.len() as u64, 0, *n), 60)).collect();
-        d.push(Dom::new("histories", LANGS.len() as u64, 1).budget(self.tier.pick(120, 1800)).note(format!(
-            "BFS to depth {} over {{search(\"\"), search(\" \"), add x4, limit x4}} per language, merged by the canonical store key; every search transition checked against the list model",
+        d.push(Dom::new("histories", 2 * LANGS.len() as u64, 1).budget(self.tier.pick(120, 1800)).note(format!(
+            "BFS to depth {} over {{search(\"\"), search(\" \"), add x4, limit x4}} per language and per menu (duplicates / case-and-accent order conflicts), merged by the canonical store key; every search transition checked against the list model",
             self.tier.pick(6, 9)
         )));
         d
     }
     fn run(&self, dom: usize, idx: u64, cx: &mut Cx) {
         if dom == self.sets.len() {
-            let l = LANGS[idx as usize];
-            let sys = HistSys { l, menu: menu4(l) };
+            let l = LANGS[(idx / 2) as usize];
+            let sys = HistSys { l, menu: if idx % 2 == 0 { menu4(l) } else { menu_case(l) } };
             let out = bfs(&sys, cx, "hist_", vec![vec![]], self.tier.pick(6, 9), true, Duration::from_secs(self.tier.pick(100, 1500)), None);
             cx.class(&format!("bfs:depth{}", out.depth_completed));
             return;
